@@ -543,7 +543,7 @@ def refusal_cases(draw, tier="quick"):
 FINDINGS = []
 
 SUBS = [
-    Sub("factory", lambda tier: factory_cases(tier), check_factory, quick=1500, thorough=8000),
+    Sub("factory", lambda tier: factory_cases(tier), check_factory, quick=2200, thorough=8000),
     Sub("representation", lambda tier: representation_cases(tier), check_representation, quick=700, thorough=5000),
     Sub("refusals", lambda tier: refusal_cases(tier), check_refusals, quick=300, thorough=1500),
 ]
